@@ -39,5 +39,6 @@ use crate::{EventSource, Poll, PostAction, Readiness, Token, TokenFactory};
 //@ include m_ping
 //@ include m_channel
 //@ include m_futures
+//@ include m_stream
 } // mod sources
-pub use crate::sources::{PostAction, EventSource, generic, ping, channel, futures};
+pub use crate::sources::{PostAction, EventSource, generic, ping, channel, futures, stream};
